@@ -524,7 +524,11 @@ fn hostile_reply_scenario(r: &mut Report, seed: u64, call: Call, sync_flavour: b
             Call::AnnouncePeer => drop(dht.announce_peer(target, Some(4000))),
             Call::AnnounceSignedPeer => drop(dht.announce_signed_peer(target, &signer2)),
         });
+        let reached = super::net::wait_until_call_registered(&w, &node, || 1, || h.is_finished());
         let done = w.run_until(bound, |_| h.is_finished());
+        if !reached && !done {
+            r.inconclusive("a helper thread's blocking call did not reach the actor within 20 real seconds");
+        }
         if done {
             // give the thread a moment to actually finish unwinding
             match h.join() {
